@@ -42,8 +42,8 @@ CHECKS = {
  "C18": ('abstract interpretation of both parsers and read_ids on a structural model of text lines; compact_timeslot on symbolic timestamps over all orderings',
          'Every row shape of the grammar (valid, 4-column, extra column, short, trailing comment, comment only, empty, bare newline, blanks, padded, no newline) x delimiter None/explicit x nodetype/timestamptype/keys: skipped silently, or exactly one add_interaction with converted/ranked fields of the right columns, or TypeError for a failing conversion; read_ids ranks exactly the time fields of accepted rows; compact_timeslot returns ranks (negative timestamps included when it compares with literals; concrete integer sets as a second opinion when the symbolic run abstains).',
          "3.6, 4/C18"),
- "C19": ("override/blocking closure over the parsed source of the installed networkx (MRO-resolved self-call graph + taint effects); decorator body analysis; freeze coverage",
-         "Every public callable of the MRO that can change adjacency/node structure through self is a timestamped owner or lands on an always-raising override; required-blocked names resolve to always-raising definitions; base-class calls go to the direct base and reset both indexes; freeze shadows every mutator not blocked for all graphs. Pinned deviations (freeze vs add_interaction; update(nodes=)) are known findings.",
+ "C19": ("override/blocking closure over the parsed source of the installed networkx (MRO-resolved self-call graph + taint effects); abstract interpretation of the not_implemented decorator applied to every blocked stub; freeze coverage",
+         "Every public callable of the MRO that can change adjacency/node structure through self is a timestamped owner or lands on an always-raising override; required-blocked names resolve to always-raising definitions (the decorator evaluated, applied to each stub and called with positional / keyword arguments must raise NetworkXNotImplemented without running the stub); base-class calls go to the direct base and reset both indexes; freeze shadows every mutator not blocked for all graphs. Pinned deviations (freeze vs add_interaction; update(nodes=)) are known findings.",
          "3.5, 4/C19"),
  "C12": ('abstract interpretation of time_respecting_paths (temporal_dag inlined, simple paths computed on the recorded DAG) on symbolic temporal graphs with presence as an uninterpreted predicate; window construction over all orderings',
          'Every returned path is judged against every clause of the statement (non-empty, leaves u, chained, strictly increasing times in the window, each hop present and oriented, no reversal, waiting only through active instants, reaches v, key, no duplicates) on bounded shapes (3-4 nodes, 2-3 stored pairs, ids t+1,t+2,t+4, all presence valuations; walks that return to their source on targeted valuations; directed and undirected); the ids expanded are exactly those in [start,end] for all orderings. Larger graphs and completeness (C13) are not decided.',
